@@ -1,11 +1,138 @@
 # Development configuration of C12 part A (./check C12A); merged with part B into checks/c12.py.
+import os, subprocess, sys
+sys.path.insert(0, os.path.dirname(os.path.dirname(os.path.abspath(__file__))))
+import checklib
+
+SM, RM = "ds/shrinkingmap/shrinkingmap.go", "ds/randommap/random_map.go"
+GH, PQ, TPQ = "ds/generalheap/generalheap.go", "ds/priorityqueue/priorityqueue.go", "runtime/timed/priority_queue.go"
+QU, RB = "ds/queue/queue.go", "ds/ringbuffer/ringbuffer.go"
+SS, TS, ST = "ds/stack/simple_stack.go", "ds/stack/threadsafe_stack.go", "ds/stack/stack.go"
+
+SM_METHODS = ["Set", "Get", "GetOrCreate", "Compute", "Has", "ForEachKey", "ForEach", "Pop", "Keys", "Values", "Size", "IsEmpty",
+              "DeleteAndReturn", "Delete", "Clear", "delete", "AsMap", "shouldShrink", "Shrink", "shrink"]
+RM_METHODS = ["Set", "Get", "Has", "Delete", "Size", "ForEach", "RandomKey", "RandomEntry", "RandomUniqueEntries", "Keys", "Values",
+              "randomKey", "forEach"]
+PQ_METHODS = ["Push", "Peek", "Pop", "PopUntil", "PopAll", "Size", "IsEmpty"]
+QU_METHODS = ["Size", "Capacity", "ForceOffer", "Offer", "Poll", "poll"]
+STACK_METHODS = ["Push", "Pop", "Peek", "Clear", "Size", "IsEmpty"]
+
+# lock / callback skeletons (token lists), source pins (normalised statement text of the functions the models
+# mirror line by line), declared functions per file, type facts
+SKEL = ([f"{SM}:ShrinkingMap.{m}" for m in SM_METHODS] + [f"{RM}:RandomMap.{m}" for m in RM_METHODS] +
+        [f"{PQ}:PriorityQueue.{m}" for m in PQ_METHODS] + [f"{QU}:Queue.{m}" for m in QU_METHODS] +
+        [f"{RB}:RingBuffer.Add", f"{RB}:RingBuffer.ToSlice"] + [f"{TS}:threadSafeStack.{m}" for m in STACK_METHODS])
+SRC = ([f"{SM}:src=ShrinkingMap.{m}" for m in ["Set", "GetOrCreate", "Compute", "Pop", "DeleteAndReturn", "Delete", "Clear", "delete",
+                                                "shouldShrink", "shrink", "ForEach", "ForEachKey"]] +
+       [f"{SM}:src=New"] +
+       [f"{RM}:src=RandomMap.{m}" for m in ["Set", "Get", "Delete", "RandomKey", "RandomEntry", "RandomUniqueEntries", "Keys", "Values",
+                                             "randomKey", "forEach"]] + [f"{RM}:src=New"] +
+       [f"{GH}:src=Heap.{m}" for m in ["Len", "Less", "Swap", "Push", "Pop"]] + [f"{GH}:src=HeapElement.Index"] +
+       [f"{PQ}:src=PriorityQueue.{m}" for m in PQ_METHODS] + [f"{PQ}:src=New"] +
+       [f"{TPQ}:src={m}" for m in ["NewPriorityQueue", "priorityQueueAscending.Push", "priorityQueueAscending.PopUntil",
+                                    "timeAscending.CompareTo", "priorityQueueDescending.Push", "priorityQueueDescending.PopUntil",
+                                    "timeDescending.CompareTo"]] +
+       [f"{QU}:src=Queue.{m}" for m in ["ForceOffer", "Offer", "poll"]] + [f"{QU}:src=New"] +
+       [f"{RB}:src=RingBuffer.Add", f"{RB}:src=RingBuffer.ToSlice", f"{RB}:src=NewRingBuffer"] +
+       [f"{SS}:src=simpleStack.{m}" for m in STACK_METHODS] + [f"{ST}:src=New"])
+FUNCS = [f"{f}:funcs" for f in (SM, RM, GH, PQ, TPQ, QU, RB, SS, TS)]
+TYPES = [f"{SM}:type=ShrinkingMap", f"{SM}:type=Options", f"{RM}:type=RandomMap", f"{RM}:type=randomMapEntry",
+         f"{GH}:type=Heap", f"{GH}:type=HeapElement", f"{PQ}:type=PriorityQueue", f"{TPQ}:type=priorityQueueAscending",
+         f"{TPQ}:type=priorityQueueDescending", f"{TPQ}:type=timeAscending", f"{TPQ}:type=timeDescending",
+         f"{QU}:type=Queue", f"{RB}:type=RingBuffer", f"{SS}:type=simpleStack", f"{TS}:type=threadSafeStack"]
+# container/heap of the toolchain: the model's up / down / Push / Pop / Remove are these functions verbatim
+STDHEAP = ["src=up", "src=down", "src=Push", "src=Pop", "src=Remove", "src=Fix", "src=Init"]
+CALLS = ["delete", "shouldShrink", "shrink", "Get", "Set", "Delete", "Size", "Has", "ForEach", "forEach", "randomKey", "Push", "Pop",
+         "Peek", "Clear", "IsEmpty", "Len", "poll", "Remove", "Index"]
+
+
+def regen(ctx):
+    """Regenerates lean/Hive/Gen/C12a_Skel.lean (the same file for ./check C12A and ./check C12) with harness/c12/skel."""
+    out = os.path.join(checklib.LEAN, "Hive", "Gen", "C12a_Skel.lean")
+    tmp = os.path.join(ctx.scratch, "C12a_Skel.lean")
+    goroot = subprocess.run(["go", "env", "GOROOT"], capture_output=True, text=True).stdout.strip()
+    stdheap = os.path.join(goroot, "src", "container", "heap", "heap.go")
+    args = (["go", "run", "./c12/skel", tmp, "Hive.Gen.C12aSkel"] + ["+" + m for m in CALLS] +
+            [os.path.join(ctx.repo, r) for r in SKEL + SRC + FUNCS + TYPES] + [stdheap + ":" + r for r in STDHEAP])
+    rc, log = checklib.sh(args, cwd=checklib.HARNESS, timeout=600)
+    if rc != 0 or not os.path.exists(tmp):
+        return [{"kind": "skeleton-extractor", "detail": checklib.tail(log, 20)}]
+    checklib.write_gen(ctx, out, open(tmp).read())
+    return []
+
+
+# obligations of Hive/Props/C12aSkel.lean (one per regenerated definition)
+SKELETON_THEOREMS = [
+    "C12_skeleton_ShrinkingMap_Set", "C12_skeleton_ShrinkingMap_Get", "C12_skeleton_ShrinkingMap_GetOrCreate",
+    "C12_skeleton_ShrinkingMap_Compute", "C12_skeleton_ShrinkingMap_Has", "C12_skeleton_ShrinkingMap_ForEachKey",
+    "C12_skeleton_ShrinkingMap_ForEach", "C12_skeleton_ShrinkingMap_Pop", "C12_skeleton_ShrinkingMap_Keys",
+    "C12_skeleton_ShrinkingMap_Values", "C12_skeleton_ShrinkingMap_Size", "C12_skeleton_ShrinkingMap_IsEmpty",
+    "C12_skeleton_ShrinkingMap_DeleteAndReturn", "C12_skeleton_ShrinkingMap_Delete",
+    "C12_skeleton_ShrinkingMap_Clear", "C12_skeleton_ShrinkingMap_delete", "C12_skeleton_ShrinkingMap_AsMap",
+    "C12_skeleton_ShrinkingMap_shouldShrink", "C12_skeleton_ShrinkingMap_Shrink", "C12_skeleton_ShrinkingMap_shrink",
+    "C12_skeleton_RandomMap_Set", "C12_skeleton_RandomMap_Get", "C12_skeleton_RandomMap_Has",
+    "C12_skeleton_RandomMap_Delete", "C12_skeleton_RandomMap_Size", "C12_skeleton_RandomMap_ForEach",
+    "C12_skeleton_RandomMap_RandomKey", "C12_skeleton_RandomMap_RandomEntry",
+    "C12_skeleton_RandomMap_RandomUniqueEntries", "C12_skeleton_RandomMap_Keys", "C12_skeleton_RandomMap_Values",
+    "C12_skeleton_RandomMap_randomKey", "C12_skeleton_RandomMap_forEach", "C12_skeleton_PriorityQueue_Push",
+    "C12_skeleton_PriorityQueue_Peek", "C12_skeleton_PriorityQueue_Pop", "C12_skeleton_PriorityQueue_PopUntil",
+    "C12_skeleton_PriorityQueue_PopAll", "C12_skeleton_PriorityQueue_Size", "C12_skeleton_PriorityQueue_IsEmpty",
+    "C12_skeleton_Queue_Size", "C12_skeleton_Queue_Capacity", "C12_skeleton_Queue_ForceOffer",
+    "C12_skeleton_Queue_Offer", "C12_skeleton_Queue_Poll", "C12_skeleton_Queue_poll", "C12_skeleton_RingBuffer_Add",
+    "C12_skeleton_RingBuffer_ToSlice", "C12_skeleton_threadSafeStack_Push", "C12_skeleton_threadSafeStack_Pop",
+    "C12_skeleton_threadSafeStack_Peek", "C12_skeleton_threadSafeStack_Clear", "C12_skeleton_threadSafeStack_Size",
+    "C12_skeleton_threadSafeStack_IsEmpty", "C12_source_shrinkingmap_ShrinkingMap_Set",
+    "C12_source_shrinkingmap_ShrinkingMap_GetOrCreate", "C12_source_shrinkingmap_ShrinkingMap_Compute",
+    "C12_source_shrinkingmap_ShrinkingMap_Pop", "C12_source_shrinkingmap_ShrinkingMap_DeleteAndReturn",
+    "C12_source_shrinkingmap_ShrinkingMap_Delete", "C12_source_shrinkingmap_ShrinkingMap_Clear",
+    "C12_source_shrinkingmap_ShrinkingMap_delete", "C12_source_shrinkingmap_ShrinkingMap_shouldShrink",
+    "C12_source_shrinkingmap_ShrinkingMap_shrink", "C12_source_shrinkingmap_ShrinkingMap_ForEach",
+    "C12_source_shrinkingmap_ShrinkingMap_ForEachKey", "C12_source_shrinkingmap_New",
+    "C12_source_random_map_RandomMap_Set", "C12_source_random_map_RandomMap_Get",
+    "C12_source_random_map_RandomMap_Delete", "C12_source_random_map_RandomMap_RandomKey",
+    "C12_source_random_map_RandomMap_RandomEntry", "C12_source_random_map_RandomMap_RandomUniqueEntries",
+    "C12_source_random_map_RandomMap_Keys", "C12_source_random_map_RandomMap_Values",
+    "C12_source_random_map_RandomMap_randomKey", "C12_source_random_map_RandomMap_forEach",
+    "C12_source_random_map_New", "C12_source_generalheap_Heap_Len", "C12_source_generalheap_Heap_Less",
+    "C12_source_generalheap_Heap_Swap", "C12_source_generalheap_Heap_Push", "C12_source_generalheap_Heap_Pop",
+    "C12_source_generalheap_HeapElement_Index", "C12_source_priorityqueue_PriorityQueue_Push",
+    "C12_source_priorityqueue_PriorityQueue_Peek", "C12_source_priorityqueue_PriorityQueue_Pop",
+    "C12_source_priorityqueue_PriorityQueue_PopUntil", "C12_source_priorityqueue_PriorityQueue_PopAll",
+    "C12_source_priorityqueue_PriorityQueue_Size", "C12_source_priorityqueue_PriorityQueue_IsEmpty",
+    "C12_source_priorityqueue_New", "C12_source_priority_queue_NewPriorityQueue",
+    "C12_source_priority_queue_priorityQueueAscending_Push",
+    "C12_source_priority_queue_priorityQueueAscending_PopUntil", "C12_source_priority_queue_timeAscending_CompareTo",
+    "C12_source_priority_queue_priorityQueueDescending_Push",
+    "C12_source_priority_queue_priorityQueueDescending_PopUntil",
+    "C12_source_priority_queue_timeDescending_CompareTo", "C12_source_queue_Queue_ForceOffer",
+    "C12_source_queue_Queue_Offer", "C12_source_queue_Queue_poll", "C12_source_queue_New",
+    "C12_source_ringbuffer_RingBuffer_Add", "C12_source_ringbuffer_RingBuffer_ToSlice",
+    "C12_source_ringbuffer_NewRingBuffer", "C12_source_simple_stack_simpleStack_Push",
+    "C12_source_simple_stack_simpleStack_Pop", "C12_source_simple_stack_simpleStack_Peek",
+    "C12_source_simple_stack_simpleStack_Clear", "C12_source_simple_stack_simpleStack_Size",
+    "C12_source_simple_stack_simpleStack_IsEmpty", "C12_source_stack_New", "C12_skeleton_funcs_shrinkingmap",
+    "C12_skeleton_funcs_random_map", "C12_skeleton_funcs_generalheap", "C12_skeleton_funcs_priorityqueue",
+    "C12_skeleton_funcs_priority_queue", "C12_skeleton_funcs_queue", "C12_skeleton_funcs_ringbuffer",
+    "C12_skeleton_funcs_simple_stack", "C12_skeleton_funcs_threadsafe_stack", "C12_skeleton_type_ShrinkingMap",
+    "C12_skeleton_type_Options", "C12_skeleton_type_RandomMap", "C12_skeleton_type_randomMapEntry",
+    "C12_skeleton_type_Heap", "C12_skeleton_type_HeapElement", "C12_skeleton_type_PriorityQueue",
+    "C12_skeleton_type_priorityQueueAscending", "C12_skeleton_type_priorityQueueDescending",
+    "C12_skeleton_type_timeAscending", "C12_skeleton_type_timeDescending", "C12_skeleton_type_Queue",
+    "C12_skeleton_type_RingBuffer", "C12_skeleton_type_simpleStack", "C12_skeleton_type_threadSafeStack",
+    "C12_source_heap_up", "C12_source_heap_down", "C12_source_heap_Push", "C12_source_heap_Pop",
+    "C12_source_heap_Remove", "C12_source_heap_Fix", "C12_source_heap_Init",
+]
+
 SPEC = {
-    "lean_props": "Hive.Props.C12",
+    "regen": regen,
+    "lean_props": ["Hive.Props.C12", "Hive.Props.C12aSkel"],
     "lean_namespace": "Hive.C12a",
     "theorem_prefix": "C12",
     "driver": "drv_c12",
     "harness": "c12",
-    "theorems": ["C12_shrink_refines_plain_map", "C12_shrink_rule_unobservable", "C12_shrink_thresholds_unobservable",
+    "theorems": SKELETON_THEOREMS + [
+                 "C12_shrink_callbacks_atomic", "C12_shrink_callbacks_no_deadlock", "C12_shrink_early_condition_witness",
+                 "C12_shrink_history_check_sound",
+                 "C12_shrink_refines_plain_map", "C12_shrink_rule_unobservable", "C12_shrink_thresholds_unobservable",
                  "C12_plain_map_laws", "C12_shrink_garbage_le_deleted", "C12_shrink_count_threshold_bounds_garbage",
                  "C12_rmap_index_invariant", "C12_rmap_refines_plain_map", "C12_rmap_pick_is_member", "C12_rmap_unique_entries",
                  "C12_heap_invariant", "C12_heap_pop_is_best", "C12_heap_remove_idempotent", "C12_heap_pop_in_priority_order",
